@@ -12,44 +12,49 @@ open JS
     (`WF`: object keys are distinct, as `json.loads` guarantees). -/
 theorem equal_is_jsonEq (a b : Json) (ha : Spec.WF a = true) (hb : Spec.WF b = true) :
     equal a b = Spec.jsonEq a b := by
-  sorry
+  exact equal_eq_jsonEq a b ha hb
 
 /-- `const`: no error exactly when instance and constant are JSON-equal. -/
 theorem const_spec (c x : Json) (hc : Spec.WF c = true) (hx : Spec.WF x = true) (b : Option Nat) (st : RState)
     (hb : b ≠ some 0) :
     ((kwConst c x b st).errs = [] ↔ Spec.jsonEq x c = true) ∧ (kwConst c x b st).st = st := by
-  sorry
+  refine ⟨?_, kwConst_st c x b st⟩
+  rw [kwConst_errs c x b st hb, equal_eq_jsonEq x c hx hc]
 
 /-- `enum`: no error exactly when some listed value is JSON-equal to the instance. -/
 theorem enum_spec (es : List Json) (x : Json) (hes : Spec.WFList es = true) (hx : Spec.WF x = true)
     (b : Option Nat) (st : RState) (hb : b ≠ some 0) :
     (kwEnum (.arr es) x b st).errs = [] ↔ es.any (Spec.jsonEq x) = true := by
-  sorry
+  rw [kwEnum_errs es x b st hb, any_congr_mem es (equal x) (Spec.jsonEq x)
+    (fun e he => equal_eq_jsonEq x e hx (WFList_mem hes e he))]
 
 /-- `uniq` (both of its code paths) decides pairwise JSON-distinctness. -/
 theorem uniq_spec (xs : List Json) (hxs : Spec.WFList xs = true) : uniq xs = Spec.allDistinct xs := by
-  sorry
+  exact uniq_eq_allDistinct xs hxs
 
 /-- `uniqueItems: true` on an array, under any type checker whose `array` is the built-in one. -/
 theorem uniqueItems_spec (cfg : Cfg) (xs : List Json) (hxs : Spec.WFList xs = true)
     (harr : lookupS (skey "array") cfg.types = some .isArray)
     (b : Option Nat) (st : RState) (hb : b ≠ some 0) :
     (kwUniqueItems cfg (.bool true) (.arr xs) b st).errs = [] ↔ Spec.allDistinct xs = true := by
-  sorry
+  rw [kwUniqueItems_errs cfg xs harr b st hb, uniq_eq_allDistinct xs hxs]
 
 /-- The three keywords use one relation: `const: c` accepts `x` exactly when `enum: [c]` does and
     exactly when `uniqueItems` rejects `[c, x]`. -/
 theorem three_agree (c x : Json) (hc : Spec.WF c = true) (hx : Spec.WF x = true) (st : RState) :
     ((kwConst c x none st).errs = [] ↔ (kwEnum (.arr [c]) x none st).errs = [])
     ∧ ((kwConst c x none st).errs = [] ↔ uniq [c, x] = false) := by
-  sorry
+  have hn : (none : Option Nat) ≠ some 0 := by simp
+  have hw : Spec.WFList [c, x] = true := by simp [Spec.WFList, hc, hx]
+  rw [kwConst_errs c x none st hn, kwEnum_errs [c] x none st hn, uniq_eq_allDistinct _ hw]
+  simp [Spec.allDistinct, equal_eq_jsonEq x c hx hc, jsonEq_symm' x c hx hc]
 
 /-- JSON equality is an equivalence on well-formed values (sanity of the specification). -/
 theorem jsonEq_refl (a : Json) (ha : Spec.WF a = true) : Spec.jsonEq a a = true := by
-  sorry
+  exact jsonEq_refl' a ha
 theorem jsonEq_symm (a b : Json) (ha : Spec.WF a = true) (hb : Spec.WF b = true) :
     Spec.jsonEq a b = Spec.jsonEq b a := by
-  sorry
+  exact jsonEq_symm' a b ha hb
 
 /-! Non-vacuity and the points the property names (these are *tests*, not the claim). -/
 example : equal (.arr [.num (.int 0)]) (.arr [.bool false]) = false := by decide +kernel
